@@ -1,4 +1,5 @@
 """C20 — file-descriptor I/O is complete and exact under arbitrary short reads and writes."""
+import os
 import random
 
 from vflib import core, build
@@ -71,8 +72,9 @@ def shard_fn(shard, nshards, seed, tier, exe, ndocs, nenum):
                 err_at, eno = -1, 0
             cmds.append("FDW 0 %d %s %d %d" % (flags, caps, err_at, eno))
             plan.append(("w", caps, err_at, eno))
-        if rng.random() < 0.1:
-            cmds.append("FDF x%s 1 %d" % (("/dev/shm/vf_c20_%d_%d.json" % (shard, n)).encode().hex(), flags))
+        if rng.random() < 0.15:
+            # the path may already hold an older file (empty, shorter or much longer than what is written now)
+            cmds.append("FDF x%s 1 %d %d %d" % (("/dev/shm/vf_c20_%d_%d.json" % (shard, n)).encode().hex(), flags, rng.choice([0, 0, 1, 50, 5000, 100000]), rng.randrange(2)))
             plan.append(("file",))
         cmds.append("PUT 0")
         add(cmds, plan)
@@ -202,7 +204,9 @@ def shard_fn(shard, nshards, seed, tier, exe, ndocs, nenum):
                 # (reading back may legitimately fail: top-level scalars need a terminator, deep spines exceed the default depth)
                 if int(f["rc"]) != 0 or f["opens"] != f["closes"] or f["opens"] != "2" or (int(f["obj"]) and not int(f["eq"])):
                     key, what = "file-roundtrip", "to_file_ext/from_file round trip: %s" % ln
-                sh.count("file.roundtrip")
+                elif f["raw_eq"] != "1":
+                    key, what = "file-bytes", "the file does not hold exactly the serialization after json_object_to_file[_ext]: %s bytes in the file, %s expected (%s)" % (f["fsize"], f["want"], cmd.split()[4:])
+                sh.count("file.roundtrip" + (".over_existing_file" if cmd.split()[4] != "0" else ""))
             if key:
                 sh.violation("C20/" + key, what, rep)
             sh.nontrivial(cmd[:4000])
@@ -216,8 +220,12 @@ def shard_fn(shard, nshards, seed, tier, exe, ndocs, nenum):
 def run(tier, seed):
     bdir = build.build("asan")
     chk = core.Check(PID, tier, seed, level="fault_enumeration")
+    rd = core.record_dir(PID) if tier == "thorough" else None
     sh = core.parallel(shard_fn, seed=seed, tier=tier, exe=bdir + "/jcdrv", ndocs=12000 if tier == "quick" else 60000, nenum=160 if tier == "quick" else 2000)
     chk.absorb(sh)
+    if rd:
+        os.environ.pop("VF_RECORD_DIR", None)
+        core.memcheck_recorded(chk, build.build("plain"), rd)
     chk.rule = ("documents/trees with serializations around the 4096-byte buffer (1, 4095, 4096, 4097, 8192, 12289, 100k) and generated ones, 9 flag sets; per-call transfer schedules (all-1-byte, whole, random caps, "
                 "alternating 1/large, switching at buffer boundaries) imposed by the shim on a REAL memfd; one injected error (EIO/ENOSPC/EINTR/EAGAIN) at call index 0..5 in 40% of the transfers; depth limits "
                 "-1,0,1,2,5,31..33,64. Oracle: bytes that arrived at the descriptor vs the serialization; value read vs one-shot in-memory parse with the same depth; message retrievable on every failure; "
